@@ -393,6 +393,7 @@ func errorReplyRules(r *engine.Report, p *engine.Program, rcs *ssa.Function) {
 	// its error can flow into (merged err variables included), every path to the next read or to a
 	// return passes through an ERROR reply.
 	n := 0
+	kinds := map[string]bool{}
 	for _, ci := range engine.CallsIn(rcs) {
 		call, ok := ci.(*ssa.Call)
 		if !ok {
@@ -402,15 +403,28 @@ func errorReplyRules(r *engine.Report, p *engine.Program, rcs *ssa.Function) {
 		if o == nil {
 			continue
 		}
-		switch o.Name() {
+		kind := o.Name()
+		switch kind {
 		case "Unmarshal", "InitFromString", "InitFromJSON", "ControlFunc", "Errorf", "Marshal":
 		default:
-			continue
+			// a private helper of the session function that reports an error (e.g. an extracted request parser)
+			callee := call.Common().StaticCallee()
+			if callee == nil || !inPkg(callee, "controlsvc") || errIndex(call.Common().Signature()) < 0 ||
+				privateHelperOf(p, callee, map[string]bool{"(*controlsvc.Server).RunControlSession": true}) == "" {
+				continue
+			}
+			kind = "helper"
+			for _, hc := range engine.CallsIn(callee) {
+				if ho := engine.CalleeObj(hc.Common()); ho != nil && ho.Name() == "Unmarshal" {
+					kind = "Unmarshal"
+				}
+			}
 		}
 		idx := errIndex(call.Common().Signature())
 		if idx < 0 {
 			continue
 		}
+		kinds[kind] = true
 		flows := map[ssa.Value]bool{}
 		var grow func(v ssa.Value)
 		grow = func(v ssa.Value) {
@@ -448,7 +462,8 @@ func errorReplyRules(r *engine.Report, p *engine.Program, rcs *ssa.Function) {
 			"assuming this call fails, every path to the next read or to a return passes through an ERROR reply",
 			"after this call fails a path reaches "+descInstr(p, hit)+" without an ERROR reply (or its error is never tested)")
 	}
-	r.Check("R4-error-reply", "RunControlSession: failure sources found", rcs.Pos(), n >= 6, fmt.Sprintf("%d failure sources (JSON decode, two command-shape errors, InitFromString, InitFromJSON, ControlFunc, reply encoding) examined", n), fmt.Sprintf("only %d failure sources found, expected at least 6", n))
+	allKinds := kinds["Unmarshal"] && kinds["InitFromString"] && kinds["InitFromJSON"] && kinds["ControlFunc"] && kinds["Marshal"]
+	r.Check("R4-error-reply", "RunControlSession: failure sources found", rcs.Pos(), allKinds && n >= 5, fmt.Sprintf("%d failure sources examined, covering request decoding, InitFromString, InitFromJSON, ControlFunc and reply encoding", n), fmt.Sprintf("failure sources found: %d of kinds %v — expected request decoding (json.Unmarshal, directly or in a private helper), InitFromString, InitFromJSON, ControlFunc and reply encoding (Marshal)", n, kinds))
 	// (c) the empty-line skip is the only way around the dispatch: the continue on len == 0
 	// (d) command errors are formatted with "ERROR: %s\n"
 }
